@@ -218,7 +218,7 @@ impl Prop for C08 {
         "per sampled archive (1, 2-6, 51+ and 101+ samples = 1, 2, 3 metadata batches) ALL query histories of length <= 3 over an alphabet of ~24 question instances (11 reader operations x existing first/last-batch, unknown names, LZ/raw/unknown groups) are run on one fresh handle each, plus sampled length-4 and random histories up to length 40 (half under short reads/EINTR), plus 2-4 shuttle tasks each owning a clone_for_thread handle with SimFile reads as scheduling points; every answer must equal the answer of a fresh handle asked only that question (errors compare as 'is error'); a panic is a violation. distinct_nontrivial = distinct (archive, history) and (archive, schedule trace) digests."
     }
     fn runs(&self, tier: Tier) -> u64 {
-        match tier { Tier::Quick => 64, Tier::Thorough => 4_000 }
+        match tier { Tier::Quick => 64, Tier::Thorough => 1_000 }
     }
     fn run_chunk(&self, ctx: &Ctx, indices: &[u64]) -> Vec<RunReport> {
         indices.iter().map(|&i| explore(source_spec(seed::run_seed(ctx.base_seed ^ 0xC08, i), i), None, i, ctx.tier, i < 2)).collect()
